@@ -86,6 +86,13 @@ def run_one(meta, pid=None):
             keys = [k for k in keys if (pid, k) not in known]
             if not keys and not errs:
                 return {"mutant": meta["name"], "status": "quiet"}
+            lim = neutral_limits().get((meta["name"].replace("neutral-agent-", ""), pid))
+            if lim is not None:
+                # a documented limit (neutral/LIMITS.txt, DESIGN.md 7.6): reported in the evidence, not a failure of the self-test;
+                # anything the file does not list for this patch still is
+                rules_seen = {k.split(":")[0].upper() for k in keys} | {e.split(":")[0].upper() for e in errs}
+                if rules_seen <= lim:
+                    return {"mutant": meta["name"], "status": "known-limit", "got": keys[:6], "errors": errs[:3]}
             return {"mutant": meta["name"], "status": "false-alarm", "got": keys[:10], "errors": errs[:4]}
         hit = [e for e in meta["expect"] if any(k.startswith(e) for k in keys)]
         if len(hit) == len(meta["expect"]) and meta["expect"]:
@@ -110,12 +117,25 @@ def neutral_patches(pid):
             f = line.split("#")[0].split()
             if len(f) >= 2 and pid in f[1:]:
                 cross.add(f[0])
+    cross |= {nid for (nid, p) in neutral_limits() if p == pid}
     for d in sorted(glob.glob(os.path.join(NEUTRAL_DIR, "*"))):
         nid = os.path.basename(d)
         p = os.path.join(d, "patch.diff")
         if os.path.exists(p) and (nid.startswith(pid + "-") or nid in cross):
             out.append({"expect": [], "path": p, "name": "neutral-agent-" + nid, "property": pid, "neutral": True,
                         "what": "behaviour-preserving refactoring by an independent sub-agent"})
+    return out
+
+
+def neutral_limits():
+    """{(patch id, property): {rule ids}}: refactorings a rule is known not to follow (neutral/LIMITS.txt)"""
+    out = {}
+    lp = os.path.join(NEUTRAL_DIR, "LIMITS.txt")
+    if os.path.exists(lp):
+        for line in open(lp):
+            f = line.split("#")[0].split()
+            if len(f) >= 4:
+                out.setdefault((f[0], f[1]), set()).add(f[3].upper())
     return out
 
 
